@@ -10,6 +10,7 @@ CFG = {'assumptions': ["64*len(words) < 2^31 and len(values)*w < 2^31 (Go's int3
         'bitmap.Slice/Rank64': 'bitmap.Rank64(r, bitmap.IndexRank64(r, trailing), j) with r = bitmap.Slice(words, a, b)',
         'bitmap.Slice/NextOne': 'bitmap.NextOne(bitmap.Slice(words, a, b), j, b-a)',
         'bitmap.Slice/PrevOne': 'bitmap.PrevOne(bitmap.Slice(words, a, b), j, b-a)',
+        'bitmap.Join/Slice': 'bitmap.Slice(bitmap.Join(values, w), k*w, m*w)',
         'bitmap.Join/split': 'bitmap.Join([Getw(bm,i,w) for i < 64*len(bm)/w], w)',
 'bitmap.Join': 'bitmap.Join (+ input compared before/after)',
         'bitmap.Getw': 'bitmap.Getw(bitmap.Join(values, w), i, w) for every i',
@@ -26,7 +27,7 @@ CFG = {'assumptions': ["64*len(words) < 2^31 and len(values)*w < 2^31 (Go's int3
          'implementation is compared, the specification is silent); split+Join over bitmaps of 0..12 words x all 7 '
          'widths; ToArray(Slice) over all (from,to) of a 2-word bitmap + random ranges over 1..20 words; Slice(Slice) over a grid of (a,b,c,d) on a 2-word bitmap + '
          'random over 1..12 words; Rank64/NextOne/PrevOne of a slice over sparse and dense bitmaps of 1..8 '
-         'words; Fmt: 8 integer types x scalar/slice x boundary values, all '
+         'words; Slice(Join) at element boundaries: all (k,m) of short lists x 7 widths + random; Fmt: 8 integer types x scalar/slice x boundary values, all '
          '256 int8/uint8 values, every single bit and complement of the wider types, random values and slices of '
          '0..5, the non-integer panic. Non-trivial: Join with >= 2 values, a stored 1-bit and (w<64) a bit above w that '
          'must be cut off; Slice with a non-empty range containing a 1-bit. shape key = (w, packed length class) / '
